@@ -44,4 +44,10 @@ def jobs():
             js.append(Job("S2-retransmit@other%d-%s" % (other, "giveup" if gu else "resend"), "C06/c06.c", "c06_s2_retransmit", UNITS,
                           extra_src=EXTRA, defines=["OTHER=%d" % other] + (["WIT_GIVEUP"] if gu else []), unwind=18, group="S2", flags=FS,
                           timeout=900, desc="coap_retransmit one step (%d other queued message)" % other, bounds={"other_nodes": other}))
+    # single outcome on session failure; the in-flight case is known finding F-C06x (reported by this companion job)
+    from jobs.C07 import CUT_CLIENT, RB_CLIENT
+    js.append(Job("S6-disconnect-inflight", "C07/c07.c", "c08_s4_session_failure", UNITS + ["coap_uri.c", "coap_address.c"], extra_src=EXTRA,
+                  defines=["NHELD=0", "INFLIGHT=1", "FPROTO=1"] + CUT_CLIENT, remove_bodies=RB_CLIENT, unwind=18, flags=FS, group="S6-disconnect",
+                  kf="F-C06x", timeout=900, est_gb=3,
+                  desc="session failure with one Confirmable in flight: exactly one NACK (known finding F-C06x: two)", bounds={"in_flight": 1}))
     return js
